@@ -395,6 +395,17 @@ func (e *Exec) model(s *State, c *ssa.Call, fn *ssa.Function, full string, args 
 			return ret(t)
 		}
 		return ret(mkVar("deepeq!"+refTag(args[0])+"!"+refTag(args[1]), SBool))
+	case "strings.ContainsAny":
+		a, b := textArg(args[0]), textArg(args[1])
+		as, ok1 := a.concrete()
+		bs, ok2 := b.concrete()
+		if ok1 && ok2 {
+			return ret(mkBool(strings.ContainsAny(as, bs)))
+		}
+		if ok2 && singleAtom(a) {
+			return ret(mkVar(fmt.Sprintf("containsany!%s!%q", a.Frags[0].Atom, bs), SBool))
+		}
+		unsupported("strings.ContainsAny on mixed text")
 	case "strings.IndexRune":
 		t := textArg(args[0])
 		r, ok := args[1].(*T).intVal()
